@@ -7,7 +7,10 @@ Exit 2: ANALYSIS-ERROR - the analysis could not decide (never a silent pass).
 from __future__ import annotations
 
 import argparse
+import ast
 import importlib
+import inspect
+import textwrap
 import json
 import os
 import sys
@@ -24,7 +27,26 @@ def run_rules(prop: str, repo: index.Repo, tier: str, seed: int,
               quiet: bool) -> report.Ctx:
   mod = importlib.import_module(f'sa.rules.{prop.lower()}')
   ctx = report.Ctx(prop, repo, tier, seed, quiet)
-  mod.run(ctx)
+  ctx.analysis_errors = []
+  # The statements of <module>.run are executed one by one so that a rule that
+  # cannot decide (AnalysisError) does not discard what the other rules found.
+  lines, first = inspect.getsourcelines(mod.run)
+  fn = ast.parse(textwrap.dedent(''.join(lines))).body[0]
+  ast.increment_lineno(fn, first - 1)
+  scope = dict(mod.__dict__)
+  scope['ctx'] = ctx
+  failed_names = set()
+  for st in fn.body:
+    code = compile(ast.Module(body=[st], type_ignores=[]), mod.__file__, 'exec')
+    try:
+      exec(code, scope)  # pylint: disable=exec-used
+    except index.AnalysisError as e:
+      ctx.analysis_errors.append(str(e))
+      failed_names |= {n.id for n in ast.walk(st) if isinstance(n, ast.Name) and isinstance(n.ctx, ast.Store)}
+    except NameError as e:
+      if getattr(e, 'name', None) in failed_names:
+        continue  # depends on a rule that could not decide
+      raise
   return ctx
 
 
@@ -44,9 +66,10 @@ def _run_variant(args):
   try:
     variant = index.Repo(base.root, overlay=overlay, base=base)
     ctx = run_rules(prop, variant, 'quick', seed, quiet=True)
-    ctx.check_floors()
     fired = sorted({v.rule for v in ctx.violations})
-    err = None
+    err = '; '.join(ctx.analysis_errors) or None
+    if err is None:
+      ctx.check_floors()
   except index.AnalysisError as e:
     fired = []
     err = str(e)
@@ -122,6 +145,15 @@ def main(argv=None) -> int:
         f'digest={repo.digest()} analysed={repo.stats()}'
     )
     ctx = run_rules(prop, repo, args.tier, seed, quiet=False)
+    if ctx.analysis_errors:
+      if not ctx.violations:
+        raise index.AnalysisError('; '.join(ctx.analysis_errors))
+      # some rules could not decide, others report: the violations stand
+      for e in ctx.analysis_errors:
+        print(f'ANALYSIS-ERROR property={prop} (rule skipped, other rules report below): {e}')
+      for rs in ctx.rules.values():
+        rs.floor = 0
+      args.no_selftest = True
     if args.replay:
       with open(args.replay, 'r', encoding='utf-8') as f:
         want = json.load(f)
